@@ -459,6 +459,20 @@ func vdSchemas(trees []string) []string {
 			out = append(out, strings.ReplaceAll(w, "%s", d))
 		}
 	}
+	// draft-07 documents whose defaults sit on non-root subschemas that use draft-specific keywords
+	for _, w := range []string{
+		`{"$schema":"http://json-schema.org/draft-07/schema#","properties":{"p":{"items":[{"type":"integer"}],"default":%s}}}`,
+		`{"$schema":"http://json-schema.org/draft-07/schema#","properties":{"p":{"items":[{"type":"integer"}],"additionalItems":false,"default":%s}}}`,
+		`{"$schema":"http://json-schema.org/draft-07/schema#","properties":{"p":{"dependencies":{"a":["b"]},"default":%s}}}`,
+		`{"$schema":"http://json-schema.org/draft-07/schema#","definitions":{"i":{"type":["integer","array","object"]}},"properties":{"p":{"$ref":"#/definitions/i","type":"string","default":%s}}}`,
+		`{"$schema":"http://json-schema.org/draft-07/schema#","items":{"definitions":{"k":{"$id":"#k","type":"integer"}},"items":[{"$ref":"#k"}],"default":%s}}`,
+		`{"properties":{"p":{"prefixItems":[{"type":"integer"}],"default":%s}}}`,
+		`{"properties":{"p":{"dependentRequired":{"a":["b"]},"default":%s}}}`,
+	} {
+		for _, d := range []string{`["x"]`, `[1]`, `[1,"x"]`, `{"a":1}`, `{"a":1,"b":2}`, `1`, `"s"`} {
+			out = append(out, strings.ReplaceAll(w, "%s", d))
+		}
+	}
 	// two subschemas with the same type keyword and byte-identical default text but different
 	// further constraints, in both orders and in several placements
 	type fam struct {
